@@ -1,5 +1,15 @@
 import Driver.Kinds.C16
+import Driver.Kinds.Core
+import Driver.Kinds.Pktz
+import Driver.Kinds.Ext
+import Driver.Kinds.Vla
+import Driver.Kinds.H264
+import Driver.Kinds.H265
+import Driver.Kinds.Vpx
+import Driver.Kinds.Av1
 namespace Rtp
 def allHandlers : List (String × Proto.Handler) :=
-  Kinds.C16.handlers
+  Kinds.C16.handlers ++ Kinds.Core.handlers ++ Kinds.Pktz.handlers ++ Kinds.Ext.handlers ++
+  Kinds.Vla.handlers ++ Kinds.H264.handlers ++ Kinds.H265.handlers ++ Kinds.Vpx.handlers ++
+  Kinds.Av1.handlers
 end Rtp
